@@ -480,12 +480,44 @@ func ruleR14_5(w *World, r *Report) {
 		r.Lost("OrdaService.TestEncodingOperation")
 		return
 	}
-	tss := typeSwitchesIn(fd.Body)
-	if len(tss) == 0 {
+	// the arms: the cases of the type switch over the decoded operation (in the function itself or in a new helper
+	// it hands the operation to), plus operation types that are peeled off by a comma-ok assertion before the switch
+	arms := map[string]*ast.CaseClause{}
+	peeled := map[string]token.Pos{}
+	nSwitch := 0
+	for _, hd := range u.declWithNewHelpers(pService, "OrdaService", "TestEncodingOperation") {
+		if hd.Body == nil {
+			continue
+		}
+		for _, ts := range typeSwitchesIn(hd.Body) {
+			nSwitch++
+			for k, v := range typeSwitchArms(p.TypesInfo, ts) {
+				if _, dup := arms[k]; !dup {
+					arms[k] = v
+				}
+			}
+		}
+		ast.Inspect(hd.Body, func(node ast.Node) bool {
+			as, ok := node.(*ast.AssignStmt)
+			if !ok || len(as.Lhs) != 2 || len(as.Rhs) != 1 {
+				return true
+			}
+			ta, ok := as.Rhs[0].(*ast.TypeAssertExpr)
+			if !ok || ta.Type == nil {
+				return true
+			}
+			if tv, ok := p.TypesInfo.Types[ta.Type]; ok {
+				if n := namedOf(tv.Type); n != nil {
+					peeled[n.Obj().Name()] = as.Pos()
+				}
+			}
+			return true
+		})
+	}
+	if nSwitch == 0 {
 		r.Undecided("TestEncodingOperation", u.Pos(fd.Pos()), "no type switch")
 		return
 	}
-	arms := typeSwitchArms(p.TypesInfo, tss[0])
 	tabs, _ := opTables(u)
 	var names []string
 	for n := range tabs {
@@ -495,6 +527,10 @@ func ruleR14_5(w *World, r *Report) {
 	for _, n := range names {
 		cc := arms[n]
 		if cc == nil {
+			if pos, ok := peeled[n]; ok && (n == "ErrorOperation" || n == "IncreaseOperation" || n == "SnapshotOperation") {
+				r.OK("TestEncodingOperation/arm "+n, u.Pos(pos), "handled by a comma-ok assertion ahead of the switch")
+				continue
+			}
 			r.Bad("TestEncodingOperation/arm "+n, u.Pos(fd.Pos()), "no arm: the echo answers with an unrelated operation")
 			continue
 		}
